@@ -282,6 +282,7 @@ func (d *Document) getOrCreateNumbering(config *ListConfig) string {
 	// 生成抽象编号键
 	abstractKey := fmt.Sprintf("%s_%s_%d", config.Type, config.BulletSymbol, config.IndentLevel)
 
+	verifPoint("numbering.lookup")
 	// 检查是否已存在抽象编号
 	var abstractNum *AbstractNum
 	if existing, exists := manager.abstractNums[abstractKey]; exists {
